@@ -682,12 +682,17 @@ def value_use(name):
         """Sets the value"""
         if not isinstance(value, Value):
             raise TypeError(f"Expecting a Value instance, but got {value}")
-        # If value was already set, remove usage
-        if name in self._var_map:
-            self.del_use(self._var_map[name])
+        old_value = self._var_map.get(name)
 
         # Place the value in the var map:
         self._var_map[name] = value
+
+        # If a value was already set, remove its usage, unless another
+        # operand of this instruction still refers to it (x + x):
+        if old_value is not None and all(
+            v is not old_value for v in self._var_map.values()
+        ):
+            self.del_use(old_value)
 
         # Add usage:
         self.add_use(value)
